@@ -620,6 +620,18 @@ fn scenario(ctx: &mut Ctx, rng: &mut Rng, thorough: bool, idx: u64) {
     let sequential = rng.chance(1, 2);
     let mut nodes: Vec<u64> = if sequential {
         (1..=k as u64).collect()
+    } else if rng.chance(1, 4) {
+        // bit-pattern relatives: ids that agree in their low (or high) half, differ by one bit, by a
+        // power of two, by their byte order — whatever hash_virtual_node does with the 64 bits of an
+        // id, ids like these are where a lossy packing / truncation makes two members coincide
+        let x = *rng.pick(&[1u64, 5, 42, 0xdead_beef, 0x1234_5678_9abc_def0]);
+        let mut u = vec![x, x ^ (1 << 32), x.wrapping_add(1 << 32), x.wrapping_add(2 << 32), x ^ (1 << 63), x.swap_bytes(), x.rotate_left(32), x << 32, x | (0xffff_ffffu64 << 32), x & 0xffff_ffff];
+        u.sort();
+        u.dedup();
+        rng.shuffle(&mut u);
+        u.truncate(k);
+        ctx.out.count("nodes:bit-pattern-relatives");
+        u
     } else {
         let mut u = universe.to_vec();
         rng.shuffle(&mut u);
@@ -683,10 +695,15 @@ fn scenario(ctx: &mut Ctx, rng: &mut Rng, thorough: bool, idx: u64) {
                 first = Some((pos, reps, inj));
             }
             Some((pos0, reps0, inj0)) => {
+                // two virtual nodes on one position are NOT excluded any more (session 4: they exist, see
+                // witness_position_collision): whatever the positions are, every join order must give
+                // the same ring and the same replica lists
                 if !*inj0 || !inj {
-                    ctx.out.count("excluded:order:position-collision");
-                } else {
-                    let replay = json!({"nodes_a": perms[0], "nodes_b": plist, "vnodes": vnodes, "rf": rf});
+                    ctx.out.count("order:position-collision-in-a-generated-membership");
+                }
+                {
+                    let replay = json!({"nodes_a": perms[0].iter().map(|x| x.to_string()).collect::<Vec<_>>(), "nodes_b": plist.iter().map(|x| x.to_string()).collect::<Vec<_>>(), "vnodes": vnodes, "rf": rf,
+                        "position_collision": !*inj0 || !inj});
                     if *pos0 != pos {
                         ctx.out.violation("C19:order:ring-differs", "two join orders of the same membership produce different rings", replay.clone());
                     }
@@ -832,7 +849,10 @@ fn scenario(ctx: &mut Ctx, rng: &mut Rng, thorough: bool, idx: u64) {
         let cur: Vec<u64> = ids(ring.nodes());
         let fresh = ctx.op_new(&cur, vnodes, rf);
         if fresh.verif_ring_positions() != ring.verif_ring_positions() {
-            ctx.out.count("excluded:rebuilt-ring-differs(position-collision)");
+            // the ring reached through the add / remove history differs from a ring built from the same
+            // membership: placement depends on the history, not on the membership set
+            ctx.out.violation("C19:order:history-dependent-ring", "a ring reached through add_node / remove_node differs from HashRing::new over the same members (same vnodes, rf)",
+                json!({"members": cur.iter().map(|x| x.to_string()).collect::<Vec<_>>(), "vnodes": vnodes, "rf": rf, "case": idx}));
         }
         // version restarts with a fresh ring: continue on the fresh one
         ring = fresh;
